@@ -131,6 +131,22 @@ CLAIMS = {
                      "not yet proved; strings.TrimSpace is modelled for ASCII white space. Hook: VerifMakeDetail.",
         "technique": "Lean 4 theorems on a byte-level model of the splice + differential stream + arithmetic/dice oracle",
     },
+    "C11": {
+        "text": "Theorem isolation (all N, all interleavings, induction over the schedule): on the step model, if no step of any "
+                "VM writes package-level state, every VM's final state equals what it reaches running alone and the shared state "
+                "is untouched; the converse situation is a kernel-checked two-VM witness (the repaired language defect). "
+                "Regenerated facts decided in the kernel on every run (DS/Gen/Globals.lean from /repo): the only assignments to "
+                "package-level variables are the init-time hook registration and a public setter that no library function "
+                "calls; the package-level random source is touched only by Roll and GetCurSeed, both under randSourceMu; the "
+                "shared builtin tables are only read. Validation on the implementation: fresh-process cold starts with 4-16 "
+                "goroutines on their own VMs (three languages, mixed flags, builtin methods on shared prototypes, functions, "
+                "computed values, syntax errors), each compared run-by-run with its isolated execution, and the same under the "
+                "Go race detector.",
+        "note": TB + "Data races in the Go-memory-model sense cannot be exhibited by an executable Lean model: the race detector "
+                     "run is supporting validation. Mutation of shared objects THROUGH a read (e.g. writing a field of a builtin "
+                     "prototype entry) is not visible to the Globals extraction and is covered by the concurrent run only.",
+        "technique": "Lean 4 isolation theorem over all schedules + regenerated global-footprint facts + concurrent differential run (-race)",
+    },
 }
 
 NOT_YET = {}
